@@ -26,12 +26,6 @@ def nextOf : List HTok → Next
   | .math _ :: _ => .start "math".toList
   | .template _ :: _ => .other
 
-/-- **K-C03-5** (`endomit`, what is left of it): `</optgroup>` before a script-supporting element — html.go omits
-    `</optgroup>` unless an `option` tag follows, the standard only before `optgroup`/`hr` or at the end of the
-    parent; the script or template element then lands inside the optgroup. -/
-def trigEndOmit (e : List Char) (rest : List HTok) : Bool :=
-  e = "optgroup".toList && conformingAfter e (nextOf rest) && !mayOmitEnd e (nextOf rest)
-
 /-- **K-C03-6** (`colgroup`): an attribute-less `colgroup` start tag whose omission the standard does not allow
     (empty, or not starting with `col`, or right after another `colgroup`): html.go drops the tags regardless. -/
 def trigStartDrop (prev : Next) (name : List Char) (rest : List HTok) : Option String :=
@@ -88,11 +82,9 @@ def docTriggersFrom : Scan → List HTok → List String
         (if hexOverflow d then ["hexoverflow"] else []) ++
         (if sc.lastText && (d.head?.map isRefCh).getD false then ["textjoin"] else [])
       | .endTag e _ =>
-        (if trigEndOmit e rest then ["endomit"] else [])
+        []
       | .startTag n attrs =>
         (match trigStartDrop sc.prev n rest with | some x => if attrs.isEmpty then [x] else [] | none => []) ++
-        (if isOneOf n ["pre"] && commentThenNewline false rest then ["prekept"] else []) ++
-        (if isOneOf n ["template", "noscript"] then ["hiddenws"] else []) ++
         (if (n = "style".toList && attrs.any (fun a => a.name = "amp-boilerplate".toList)) ||
             isOneOf n ["xmp", "listing", "plaintext", "noembed", "noframes"] then ["rawstyle"] else []) ++
         (if attrs.any (fun a => crLfRef a.val) then ["crlf"] else []) ++
